@@ -870,17 +870,27 @@ def wf_stream(ctx):
         g = DGen(rng, VARS[:2], DENSE_ON if mon == "onc" else DENSE_OFF, max_bound=4)
         f = g.formula(rng.choice([1, 2, 3]))
         bad = rng.random() < 0.5
+        past = mon == "onc" and rng.random() < 0.35
         if bad:
             ops = DENSE_UNSUPPORTED_BOTH + (DENSE_UNSUPPORTED_ONLINE if mon == "onc" else [])
+            if past:       # pastify() makes bounded eventually / always monitorable
+                ops = [o for o in ops if o not in (("tb1", "ev"), ("tb1", "alw"))]
             f = c17.inject(rng, g, f, ops)
         vs = F.variables(f) or ["x"]
         sig = gen_signals(rng, vs)
         if not bad and rng.random() < 0.3:
             sig = {v: s[:1] for v, s in sig.items()}          # one-sample signals
         surplus = rng.random() < 0.3
+        # the online monitor after pastify(): bounded future operators become supported; what dense time has no meaning for
+        # (next, prev, rise, fall) must still be rejected - pastify() must not make it disappear
+        if past and not bad and rng.random() < 0.6:
+            g2 = DGen(rng, VARS[:2], DENSE_ON | {"bfuture"}, max_bound=4)
+            f = g2.formula(rng.choice([1, 2, 3]))
+            vs = F.variables(f) or ["x"]
+            sig = gen_signals(rng, vs)
         ctx.evaluations += 1
-        ctx.count("kind:%s-%s" % ("bad" if bad else "ok", mon))
-        v = check_wf(ctx, mon, f, sig, bad, surplus)
+        ctx.count("kind:%s-%s%s" % ("bad" if bad else "ok", mon, "-pastified" if past else ""))
+        v = check_wf(ctx, mon, f, sig, bad, surplus, past)
         if v is None:
             ctx.traces_validated += 1
         else:
@@ -889,31 +899,34 @@ def wf_stream(ctx):
                 return
 
 
-def check_wf(ctx, mon, f, sig, bad, surplus):
+def check_wf(ctx, mon, f, sig, bad, surplus, past=False):
     text = spec_text(f)
     vs = sorted(sig)
 
     def go():
         spec = impl.make_spec(mon, text, vs, extra_decl=["unused1"] if surplus else [])
         spec.parse()
+        if past:
+            spec.pastify()
         args = [[v, py_sig(sig[v])] for v in vs]
         return spec.evaluate(*args) if mon == "offc" else spec.update(*args)
     out = impl.guarded(go)
-    rep = {"kind": ("bad-" if bad else "ok-") + mon, "spec": text, "formula": F.to_proto(f), "signals": sig_rep(sig), "surplus": surplus,
-           "impl": out}
+    rep = {"kind": ("bad-" if bad else "ok-") + mon, "pastify": past, "spec": text, "formula": F.to_proto(f), "signals": sig_rep(sig),
+           "surplus": surplus, "impl": out}
     ctx.nontrivial.add((rep["kind"], text, str(rep["signals"])))
     if bad and out[0] != "rtamt":
-        return Violation("dense %s monitor: unsupported construct not rejected with RTAMTException (outcome %r): %s"
-                         % (mon, out[:2] if out[0] != "ok" else "ok", text), rep, stream="wf-c")
+        return Violation("dense %s monitor%s: unsupported construct not rejected with RTAMTException (outcome %r): %s"
+                         % (mon, " after pastify()" if past else "", out[:2] if out[0] != "ok" else "ok", text), rep, stream="wf-c")
     if not bad and out[0] != "ok":
-        return Violation("dense %s monitor: well-formed use raised %r: %s" % (mon, out[1:], text), rep, stream="wf-c")
+        return Violation("dense %s monitor%s: well-formed use raised %r: %s" % (mon, " after pastify()" if past else "", out[1:], text), rep,
+                         stream="wf-c")
     return None
 
 
 def replay_wf(ctx, obj):
     mon = obj["kind"].split("-")[1]
     v = check_wf(Ctx(ctx.id, ctx.tier, ctx.seed), mon, F.from_proto(obj["formula"]), sig_of_rep(obj["signals"]),
-                 obj["kind"].startswith("bad"), obj["surplus"])
+                 obj["kind"].startswith("bad"), obj["surplus"], bool(obj.get("pastify")))
     return (v is None), (v.what if v else "outcome as required")
 
 
